@@ -103,7 +103,7 @@ static std::string tmpdir;
 
 static void body_tramp(void*) { H->run(kvptrs.data(), (int)kvptrs.size()); }
 
-static const char* opt_names[MC_OPT_COUNT] = {"timeouts", "timeout_race", "wakepick_cost", "spurious", "casfail", "spin_dev", "wm", "free_switch_cost"};
+static const char* opt_names[MC_OPT_COUNT] = {"timeouts", "timeout_race", "wakepick_cost", "spurious", "casfail", "spin_dev", "wm", "free_switch_cost", "track_points"};
 
 static std::string json_escape(const std::string& s) {
   std::string o;
@@ -453,6 +453,7 @@ int main(int argc, char** argv) {
   for (int i = 0; i < MC_OPT_COUNT; i++) A.opts[i] = 0;
   A.opts[MC_OPT_TIMEOUTS] = 1;
   A.opts[MC_OPT_WAKEPICK_COST] = 1;
+  A.opts[MC_OPT_TRACK_POINTS] = 1;
   bool list = false, once = false;
   for (int i = 1; i < argc; i++) {
     std::string a = argv[i];
